@@ -29,6 +29,7 @@ type inode struct {
 	entries map[string]*inode
 	nlink   int
 	id      int
+	mtime   Value // time.Time struct value set by os.Chtimes (nil: zero time)
 }
 
 type openFile struct {
@@ -300,6 +301,9 @@ func (e *Engine) fileInfo(name string, n *inode) Value {
 		mode |= modeSymlink
 	}
 	sv[structFieldIndex(t, "mode")] = smt.Const(32, mode)
+	if n.mtime != nil {
+		sv[structFieldIndex(t, "modTime")] = n.mtime
+	}
 	// sys.Ino distinguishes files for os.SameFile
 	sysIdx := structFieldIndex(t, "sys")
 	if sysT, ok := t.Underlying().(*types.Struct).Field(sysIdx).Type().Underlying().(*types.Struct); ok {
@@ -478,6 +482,13 @@ func registerFS(m map[string]modelFn) {
 	m["os.TempDir"] = func(fr *frame, a []Value) Value { return mkStr("/tmp") }
 	m["os.Getenv"] = func(fr *frame, a []Value) Value { return Str{} }
 	m["os.LookupEnv"] = func(fr *frame, a []Value) Value { return Tuple{Str{}, smt.False} }
+	// os/user: the account database is outside the model; look-ups (best effort in archive/tar) fail
+	m["os/user.LookupId"] = func(fr *frame, a []Value) Value {
+		return Tuple{(*Value)(nil), fr.e.mkError(mkStr("user: unknown userid (model)"), nil)}
+	}
+	m["os/user.LookupGroupId"] = func(fr *frame, a []Value) Value {
+		return Tuple{(*Value)(nil), fr.e.mkError(mkStr("user: unknown groupid (model)"), nil)}
+	}
 	m["os.UserHomeDir"] = func(fr *frame, a []Value) Value { return Tuple{mkStr("/home/user"), nilErr} }
 	m["os.Getpid"] = func(fr *frame, a []Value) Value { return intC(4242) }
 	m["os.Mkdir"] = func(fr *frame, a []Value) Value {
@@ -651,6 +662,9 @@ func registerFS(m map[string]modelFn) {
 			return e.pathError("chtimes", name, errno)
 		}
 		e.fs().mutation(e, "chtimes "+name)
+		if st, ok := a[2].(Struct); ok {
+			node.mtime = append(Struct(nil), st...)
+		}
 		return nilErr
 	}
 	m["os.Lchown"] = func(fr *frame, a []Value) Value { return nilErr }
